@@ -52,12 +52,16 @@ CLAIMED = {
  "C14": dict(engine="e7-concurrency (instrumented build) + copy isolation + race pass", design="4/C14",
    text="Scenarios of 2..3 concurrent jobs (three kinds of assembly, load, simulation sharing one configuration value and one WarriorData) run as threads of a controlled scheduler on the instrumented build with scheduling points at every function entry, loop iteration and channel operation: every interleaving up to a deviation bound must give each job its sequential result with no leak or deadlock; every map-iteration order vector with <=2 deviating sites over 14 symbol-table programs must give one result; every (mutation of caller data x API point) pair must leave the simulator's observations unchanged; a free-running -race pass over job sets and thread counts 1..32 complements this for plain-memory races.",
    technique="stateless interleaving exploration under a controlled scheduler (deviation-bounded DFS) + exhaustive map-order and mutation-point enumeration; race detector pass as sampled complement"),
+ "C17": dict(engine="e8-cli", design="4/C17",
+   text="cmd/gmars is rebuilt from the working tree and run on files rendered from 8 by-construction warriors under every ordered pair x every -F placement x a boundary grid of -s -l -p -c -8 -r, each preset, one-warrior runs; stdout must equal the tallies of the reference MARS, exit status 0. Random placement: the same command built with math/rand replaced through an overlay, every answer sequence of the random source forced for rounds 1..3; tallies must equal the reference results at the placements actually used and every round must be counted exactly once.",
+   technique="exhaustive enumeration of flag vectors, placements and forced random answers against the reference MARS"),
 }
 
 PENDING = {
 }
 
 ENGINES = [
+ {"name": "e8-cli", "path": "/verif/mc/engines/e8", "serves_properties": ["C17"], "kind_free_text": "drives the freshly built cmd/gmars binary over a flag / placement grid; forced random source through a build overlay"},
  {"name": "e7-concurrency", "path": "/verif/mc/engines/e7", "serves_properties": ["C14"], "kind_free_text": "job interleavings and map orders under verif/mc/sched on the instrumented build; copy-isolation grid; free-running race-detector pass"},
  {"name": "e6-termination", "path": "/verif/mc/engines/e6", "serves_properties": ["C05", "C06"], "kind_free_text": "controlled scheduler (verif/mc/sched) over the instrumented build generated by verif/mc/cmd/vinst; token soup, mutations, reader chunkings, schedules"},
  {"name": "e3-apiseq", "path": "/verif/mc/engines/e3", "serves_properties": ["C13"], "kind_free_text": "explicit-state breadth-first search over API call sequences on the real simulator"},
